@@ -521,9 +521,21 @@ var c51EntryClasses = []string{
 }
 
 // c51GenEntry builds the cache blob of one class for (domain, rsa).
-func c51GenEntry(rt *rapid.T, label string, ca *fakeCA, now time.Time, renewBefore time.Duration, domain string, isRSA bool, allowDue bool) (c51Entry, error) {
+// c51FocusEntryClasses is used for the cache entry that a batch's requests will
+// actually look up: mostly entries that look right but must not be served.
+var c51FocusEntryClasses = []string{
+	"mismatched-key", "mismatched-key", "mismatched-key", "wrongkeytype", "wrongkeytype", "expired", "expired",
+	"edge-notafter", "edge-notbefore", "notyet", "wrongname", "wrongname-sub", "trailing-garbage", "certonly", "keyonly",
+	"valid", "valid", "valid-pkcs8", "valid-chain", "none",
+}
+
+func c51GenEntry(rt *rapid.T, label string, ca *fakeCA, now time.Time, renewBefore time.Duration, domain string, isRSA bool, allowDue bool, focus bool) (c51Entry, error) {
 	e := c51Entry{Domain: domain, RSA: isRSA}
-	e.Class = rapid.SampledFrom(c51EntryClasses).Draw(rt, label+".class")
+	if focus {
+		e.Class = rapid.SampledFrom(c51FocusEntryClasses).Draw(rt, label+".focusClass")
+	} else {
+		e.Class = rapid.SampledFrom(c51EntryClasses).Draw(rt, label+".class")
+	}
 	if !allowDue && (e.Class == "renewal-due" || e.Class == "edge-notafter") {
 		e.Class = "valid"
 	}
@@ -775,6 +787,7 @@ func c51ManagerScenario(rt *rapid.T, c *ev.Collector) {
 
 	// batches (drawn before the policy so that the concurrency class is known)
 	nBatches := rapid.IntRange(1, 3).Draw(rt, "nBatches")
+	focused := map[string]bool{} // (name index, key type) pairs the batches concentrate on
 	solo := true
 	for bi := 0; bi < nBatches; bi++ {
 		size := 1
@@ -791,6 +804,7 @@ func c51ManagerScenario(rt *rapid.T, c *ev.Collector) {
 		}
 		focus := rapid.IntRange(0, nNames-1).Draw(rt, "focus")
 		focusKind := rapid.SampledFrom(c51HelloKinds).Draw(rt, "focusKind")
+		focused[fmt.Sprintf("%d.%v", focus, c51WantRSA(focusKind))] = true
 		var batch []c51Hello
 		for i := 0; i < size; i++ {
 			var h c51Hello
@@ -870,7 +884,7 @@ func c51ManagerScenario(rt *rapid.T, c *ev.Collector) {
 	due := map[string]bool{}
 	for i := range ascii {
 		for _, isRSA := range []bool{false, true} {
-			e, err := c51GenEntry(rt, fmt.Sprintf("entry%d.%v", i, isRSA), ca, now, rb, ascii[i], isRSA, solo)
+			e, err := c51GenEntry(rt, fmt.Sprintf("entry%d.%v", i, isRSA), ca, now, rb, ascii[i], isRSA, solo, focused[fmt.Sprintf("%d.%v", i, isRSA)] && rapid.Bool().Draw(rt, fmt.Sprintf("entry%d.%v.tricky", i, isRSA)))
 			if err != nil {
 				c.Inconclusive("cache entry: " + err.Error())
 				rt.Fatalf("cache entry: %v", err)
@@ -999,7 +1013,7 @@ func c51ManagerScenario(rt *rapid.T, c *ev.Collector) {
 		release := make(chan struct{})
 		if len(batch) > 1 {
 			ca.mu.Lock()
-			ca.gate = func() {
+			ca.gate = func(string) {
 				// hold the first order until every caller of the batch is inside GetCertificate
 				started.Wait()
 				time.Sleep(300 * time.Microsecond)
@@ -1136,7 +1150,16 @@ func c51ManagerScenario(rt *rapid.T, c *ev.Collector) {
 		if parts[1] == "rsa" {
 			ck += "+rsa"
 		}
-		if n > 1 && !due[ck] {
+		// Names outside the generated universe (IP literals, malformed names under a nil
+		// policy) may be issued by the CA and then rejected by the Manager itself, in which
+		// case a second Manager legitimately tries again.
+		limit := managers
+		for _, a := range ascii {
+			if a == parts[0] {
+				limit = 1
+			}
+		}
+		if n > limit && !due[ck] {
 			rt.Fatalf("VF-VIOLATION: property=C51 %d certificates were issued for %q (%s) in one scenario; requests for one name must share one issuance [batches=%v]", n, parts[0], parts[1], c51BatchSizes(sc.Batches))
 		}
 	}
@@ -1232,5 +1255,12 @@ func TestC51(t *testing.T) {
 	if _, ok := c51Poisoned(); ok || t.Failed() {
 		return
 	}
-	rapid.Check(t, func(rt *rapid.T) { c51ManagerScenario(rt, c) })
+	rapid.Check(t, func(rt *rapid.T) {
+		// roughly every sixth history is a harness-scheduled concurrency history (a few dozen per shard)
+		if rapid.IntRange(0, 4).Draw(rt, "history") == 2 {
+			c51GatedHistory(rt, c)
+			return
+		}
+		c51ManagerScenario(rt, c)
+	})
 }
